@@ -247,7 +247,7 @@ func genExplain(g *vfGen) Statement {
 		s.Verbose = true
 	}
 	g.kws("SELECT")
-	s.Statement = g.selectBody(selWhere, 0)
+	s.Statement = g.selectBody([]int{selWhere, selInto, selInto | selWhere | selGroup, selSubquery, selRichSources}[vfChoice(5)], 0)
 	return s
 }
 
